@@ -283,6 +283,11 @@ last sync-group block `get_fmmu_addr` handed out -/
 def winLo (p : Proc) : Nat := winBase p.fmNo
 def winLen (p : Proc) : Nat := (granted p + 1) * fmGroup
 
+/-- the values `ParallelEtherCat.get_fmmu_addr` returned to a participant that reached its body, in call order:
+the k-th call gives `base_addr + k * fmGroup` (unchanged by the wrapper); each one names a block of `fmGroup`
+bytes (the low bits address the EtherCAT packet) -/
+def givenAddrs (p : Proc) : List Nat := (List.range (granted p)).map fun k => lastAddr p.fmNo (k + 1)
+
 def EthertypesDistinct (s : Sys) : Prop :=
   ∀ i j, i < s.procs.length → j < s.procs.length → i ≠ j →
     (getP s i).pc.member = true → (getP s j).pc.member = true → (getP s i).et ≠ (getP s j).et
@@ -299,6 +304,12 @@ def FmmuWindowsDisjoint (s : Sys) : Prop :=
   ∀ i j, i < s.procs.length → j < s.procs.length → i ≠ j →
     (getP s i).pc = .running → (getP s j).pc = .running →
     disjoint (winLo (getP s i)) (winLen (getP s i)) (winLo (getP s j)) (winLen (getP s j)) = true
+
+/-- the blocks named by the addresses actually handed to two different running participants never overlap -/
+def GivenDisjoint (s : Sys) : Prop :=
+  ∀ i j, i < s.procs.length → j < s.procs.length → i ≠ j →
+    (getP s i).pc = .running → (getP s j).pc = .running →
+    ∀ a ∈ givenAddrs (getP s i), ∀ b ∈ givenAddrs (getP s j), disjoint a fmGroup b fmGroup = true
 
 /-- decidable versions (driver, refutations) -/
 def allPairs (n : Nat) (f : Nat → Nat → Bool) : Bool :=
